@@ -115,7 +115,15 @@ def gen_value(fam, rng, pid=None, boundary=None):
         depth = 0
         if k != 'P':
             depth = 1 + rng.below(8 if k == 'M' else 7)
-            v['labels'] = [(rng.below(1 << 20), rng.below(8), 0) for _ in range(depth - 1)] + [(rng.below(1 << 20), rng.below(8), 1)]
+            def inner(rng):
+                # label values from a small pool so that the special values 0 (explicit null) and 0x80000 occur inside a stack;
+                # with the traffic-class bits clear those would be the compatibility stop labels, so they get a non-zero class
+                val = rng.choice([0, 0x80000, 1, 0x7ffff, 0xfffff, rng.below(1 << 20), rng.below(1 << 20)])
+                exp = rng.below(8)
+                if val in (0, 0x80000) and exp == 0:
+                    exp = 1 + rng.below(7)
+                return (val, exp, 0)
+            v['labels'] = [inner(rng) for _ in range(depth - 1)] + [(rng.choice([0, 0x80000, 3, rng.below(1 << 20)]), rng.below(8), 1)]
             if rng.chance(1, 8):
                 v['labels'] = [bytes([0x80, 0, 0]) if rng.chance(1, 2) else bytes([0, 0, 0])]
                 depth = 1
